@@ -78,7 +78,7 @@ class AntennaHistorySinex(SiteInfoHistoryBase):
                 raise MissingDataError(f"Station {self.station!r} is not given in SITE/ANTENNA SINEX block.")
             raw_info = source_data[self.station]["site_antenna"]
         elif self.station.upper() in source_data:
-            if "site_antenna" not in source_data[self.station]:
+            if "site_antenna" not in source_data[self.station.upper()]:
                 raise MissingDataError(f"Station {self.station.upper()!r} is not given in SITE/ANTENNA SINEX block.")
             raw_info = source_data[self.station.upper()]["site_antenna"]
         else:
